@@ -46,6 +46,7 @@ theorem lastCover_no_notes (q : List (Item × Nat)) (t : String) (k : Path)
       cases hx1 : x.1.1 with
       | note e => rw [hx1] at hx; simp [isNote] at hx
       | handle => rfl
+      | detached => rfl
       | sync => rfl
     rw [this]
     exact ih acc (fun y hy => hl y (List.mem_cons_of_mem _ hy))
@@ -211,10 +212,10 @@ theorem once_static_exact (c : Cache.State) (id : String) (a : Acl) (r : Req) (i
     cases a with
     | fails => exact absurd h7 (by simp)
     | absent =>
-      simp only [h1, h2, h3, h4, hden, hmode, doWalk, hw, hQ, hsync]
+      simp only [h1, h2, h3, h4, hden, hmode, doWalk, hw, hQ, hsync, newSubscriber]
       simp [s0]
     | allow ts =>
-      simp only [h1, h2, h3, h4, hden, hmode, doWalk, hw, hQ, hsync]
+      simp only [h1, h2, h3, h4, hden, hmode, doWalk, hw, hQ, hsync, newSubscriber]
       simp [s0]
   have hnt : ∀ x ∈ Q ++ [(Item.sync, 0)], isTargetDelete (toResp x) = false := by
     intro x hx
@@ -348,11 +349,11 @@ theorem once_origin_conflict (c : Cache.State) (id : String) (a : Acl) (r : Req)
   | fails => exact absurd h7 (by simp)
   | absent =>
     unfold subscribe
-    simp only [h1, h2, h3, h4, hden, hmode, doWalk, hw]
+    simp only [h1, h2, h3, h4, hden, hmode, doWalk, newSubscriber, hw]
     simp [pumpAll, pump]
   | allow ts =>
     unfold subscribe
-    simp only [h1, h2, h3, h4, hden, hmode, doWalk, hw]
+    simp only [h1, h2, h3, h4, hden, hmode, doWalk, newSubscriber, hw]
     simp [pumpAll, pump]
 
 /-! ## Non-vacuity -/
